@@ -20,10 +20,20 @@ def usertaint(ctx: Ctx) -> UserTaint:
     return ctx.notes["usertaint"]  # type: ignore
 
 
+def _cannot_raise(s: ast.stmt) -> bool:
+    """statements a re-raising handler may run first: nothing that can itself raise and so replace the exception in flight
+    (no call, no attribute or item access, no arithmetic) -- binding a name to a name or a constant, or pass"""
+    if isinstance(s, ast.Pass):
+        return True
+    if isinstance(s, ast.Assign) and all(isinstance(t, ast.Name) for t in s.targets) and isinstance(s.value, (ast.Name, ast.Constant)):
+        return True
+    return False
+
+
 def _is_bare_reraise(h: ast.ExceptHandler) -> bool:
-    return len(h.body) >= 1 and all(
-        isinstance(s, ast.Raise) and s.exc is None for s in h.body[-1:]
-    ) and not any(isinstance(s, (ast.Return, ast.Break, ast.Continue)) for b in h.body for s in ast.walk(b))
+    return len(h.body) >= 1 and isinstance(h.body[-1], ast.Raise) and h.body[-1].exc is None and \
+        all(_cannot_raise(s) for s in h.body[:-1]) and \
+        not any(isinstance(s, (ast.Return, ast.Break, ast.Continue)) for b in h.body for s in ast.walk(b))
 
 
 def _enclosing(fn: ast.FunctionDef, target: ast.AST):
@@ -75,6 +85,10 @@ def rule_exc(ctx: Ctx) -> List[Ob]:
                             isinstance(s, (ast.Return, ast.Break, ast.Continue))
                             for b in node.finalbody for s in ast.walk(b)):
                         bad = f"finally at line {node.lineno} jumps and discards the exception"
+                elif isinstance(node, ast.GeneratorExp):
+                    # PEP 479: a StopIteration leaving a generator frame is replaced by RuntimeError
+                    bad = (f"runs inside a generator expression (line {node.lineno}): a StopIteration raised by the user's "
+                           f"callable comes out as RuntimeError('generator raised StopIteration')")
                 elif isinstance(node, ast.With) and field == "body":
                     for it in node.items:
                         ce = it.context_expr
